@@ -183,10 +183,13 @@ example : ((run nvCfg 40 (.ref 0) [] 1 {}).map (fun r => r.1.res.alts.map Node.r
   decide
 
 /-- **the decision expressions of the parser core are the ones in the source**: `factgen -out-fn` TRANSLATES the Go
-    expressions (lenCheck of the five sequence kinds, SepBy's value/separator test, the curtailment test, the reuse
-    test of the result cache, the context-reset test) into Lean functions on every run (Generated/FactsFn.lean), and
-    the model's definitions are proved equal to them — a semantically different expression breaks this theorem, a
-    harmless rewrite does not -/
+    expressions (lenCheck of the five sequence kinds, SepBy's value/separator test) into Lean functions on every run
+    (Generated/FactsFn.lean), and the model's definitions are proved equal to them — a semantically different expression
+    breaks this theorem, a harmless rewrite does not.  (The curtailment test of Memoize, the reuse test of the result cache
+    and the context-reset test of the sequence were three more conjuncts, each found by the text of the `if` it stood in;
+    they are subsumed by the translation of the whole functions — Props/C01P.lean `c01_translated_core`,
+    `c01p_context_cache_append`, `c01p_sequence_machinery`, built and audited with this property — which a restructuring
+    of those functions does not break.) -/
 theorem c01_translated_conditions :
     FactsFn.untranslated = [] ∧
     (∀ gs o sh, (G.seq .seqOf gs o).shape = some sh → ∀ len, sh.lenCheck len = FactsFn.lenCheckSeqOf len gs.length) ∧
@@ -194,15 +197,9 @@ theorem c01_translated_conditions :
     (∀ gs o sh, (G.seq .seqFirstOrAll gs o).shape = some sh → ∀ len, sh.lenCheck len = FactsFn.lenCheckSeqFirstOrAll len gs.length) ∧
     (∀ g ae o sh, (G.many g ae o).shape = some sh → ∀ len, sh.lenCheck len = FactsFn.lenCheckMany ae len) ∧
     (∀ v s ae o sh, (G.sepBy v s ae o).shape = some sh → ∀ len, sh.lenCheck len = FactsFn.lenCheckSepBy ae len) ∧
-    (∀ v s ae o sh, (G.sepBy v s ae o).shape = some sh → ∀ i, sh.lookup i = some (if FactsFn.sepByIsValue i then v else s)) ∧
-    (∀ cnt rem, decide (cnt > rem + Facts.curtailSlack) = FactsFn.curtails cnt rem) ∧
-    (∀ c idx pos ctx, cacheGet c idx pos ctx =
-      match c.find? (fun e => e.idx == idx && e.pos == pos) with
-      | none => none
-      | some e => if e.ctx.all (fun kv => !FactsFn.cacheRejects kv.2 (ctx.get kv.1)) then some e else none) ∧
-    (∀ p (n : Node), decide (n.rpos > p) = FactsFn.seqResets n.rpos p) :=
+    (∀ v s ae o sh, (G.sepBy v s ae o).shape = some sh → ∀ i, sh.lookup i = some (if FactsFn.sepByIsValue i then v else s)) :=
   ⟨tie_untranslated, tie_lenCheck_seqOf, tie_lenCheck_seqTry, tie_lenCheck_seqFirstOrAll, tie_lenCheck_many,
-   tie_lenCheck_sepBy, tie_sepBy_lookup, tie_curtails, tie_cacheGet, tie_seqResets⟩
+   tie_lenCheck_sepBy, tie_sepBy_lookup⟩
 
 /-- the structural facts that are not expressions (statement order of Memoize, what is stored as the entry's
     context, which keys the reuse test ranges over, what the reset does) are compared as normalised source text -/
